@@ -125,13 +125,7 @@ def run(ctx):
             ctx.add_violation("token stream differs from the documented scanner",
                               {"input_hex": hx(t), "input": t.decode("utf-8", "replace"), "implementation": i, "documented": r,
                                "model_of_code": m, "how_to_run": "./check C05 --replay <this file>"})
-    if f10:
-        w = unhx(f10[0]["witness"]["input_hex"])
-        i = ctx.run_impl("scan", [hx(w)])[0]
-        r = ctx.run_model("scanref", [hx(w)])[0]
-        r41 = ctx.run_model("scanref41", [hx(w)])[0]
-        if i != r and i == r41:
-            ctx.known_hits.append(f10[0])
+    ctx.witness_hits()
     cov = {
         "evaluations": len(texts) + len(pairs),
         "distinct_nontrivial": len(distinct),
